@@ -134,7 +134,7 @@ pub fn honest_fm(out: &mut Out, prop: &str, inst: &fmrun::Inst, kind: &RngKind, 
                                 ch.wire(),
                                 w.first().map(hs).unwrap_or("00".into())
                             ),
-                            format!("static={} dynamic={} table={}", hlist(st), hlist(dy), table),
+                            format!("static={} dynamic={} table={} msms={}", hlist(st), hlist(dy), table, msm_in.len()),
                         );
                     }
                 }
